@@ -247,9 +247,16 @@ fn main() {
         let r = guarded(|| {
             let mut solver = DefaultSolver::new(&p.P, &p.q, &p.A, &p.b, &p.cones, settings);
             solver.solve();
-            (solver.solution.status as u32, solver.solution.iterations)
+            let first = (solver.solution.status as u32, solver.solution.iterations);
+            // the same object solved again: default_start re-initialises everything, so a
+            // well-posed problem is solved again, in about as many iterations
+            solver.solve();
+            (first, (solver.solution.status as u32, solver.solution.iterations))
         });
-        let (status, iters) = r.unwrap_or((99, 0));
+        let ((status, iters), (status2, iters2)) = r.unwrap_or(((99, 0), (99, 0)));
+        sink.record(json!({"gs": {"stratum": format!("{}_resolve", sname), "k": k, "status": status2, "iterations": iters2, "n": p.q.len(), "m": p.b.len(),
+                                  "cones": p.cones.iter().map(cone_name).collect::<Vec<_>>(),
+                                  "problem": if status2 != 1 { p.to_json() } else { Value::Null }}}));
         sink.record(json!({"gs": {"stratum": sname, "k": k, "status": status, "iterations": iters, "n": p.q.len(), "m": p.b.len(),
                                   "cones": p.cones.iter().map(cone_name).collect::<Vec<_>>(),
                                   "problem": if status != 1 { p.to_json() } else { Value::Null }}}));
